@@ -259,11 +259,9 @@ func (r *UnitRun) needNamed(key, text string) {
 	if !r.needs[key] {
 		r.needs[key] = true
 		r.needOrd = append(r.needOrd, key)
-		extraDecls[key] = text
+		r.extra[key] = text
 	}
 }
-
-var extraDecls = map[string]string{}
 
 var mathAxioms = map[string]string{}
 
